@@ -91,7 +91,9 @@ where
         let start = SystemTime::now();
         let mut request = req;
         let enable_auth = self.app_share_data.sys_config.openapi_enable_auth;
-        let path = request.path();
+        // decide on the path the ROUTER will match (percent-encoded unreserved characters decoded),
+        // not on the raw request target: "/n%61cos/v1/cs/configs" is routed to the same handler
+        let path = request.match_info().as_str();
         let is_check_path = if enable_auth {
             (API_PATH.is_match(path) || R_NACOS_API_PATH.is_match(path))
                 && !IGNORE_PATH.contains(&path)
